@@ -43,6 +43,13 @@ func usesOfMap(m ssa.Value) []mapUse {
 			case "builtin.len":
 				out = append(out, mapUse{Instr: u, Kind: "len"})
 			default:
+				// handed to a helper of the package that only ranges over it to build a copy
+				if c.Static != nil {
+					if pi := mapCopierParam(c.Static); pi >= 0 && pi < len(x.Call.Args) && ssax.Strip(x.Call.Args[pi]) == m {
+						out = append(out, mapUse{Instr: u, Kind: "copy"})
+						continue
+					}
+				}
 				out = append(out, mapUse{Instr: u, Kind: "other"})
 			}
 		case *ssa.DebugRef:
